@@ -4,6 +4,7 @@ from dataclasses import dataclass
 from itertools import count
 from types import CodeType
 
+from . import _verif
 from .mro import sort_types
 from .recode import generate_dependent_dispatch
 from .utils import MISSING, subtler_type
@@ -43,8 +44,12 @@ class TypeMap(dict):
         groups = list(sort_types(obj_t, self.types))
 
         for lvl, grp in enumerate(reversed(groups)):
+            if _verif.ACTIVE:
+                grp = _verif.order("typemap.group", grp)
             for cls in grp:
                 handlers = self.entries.get(cls, None)
+                if _verif.ACTIVE:
+                    handlers = _verif.order("typemap.handlers", handlers)
                 if handlers:
                     results.update({h: lvl for h in handlers})
 
@@ -152,6 +157,8 @@ class MultiTypeMap(dict):
             for c in candidates:
                 specificities.setdefault(c, []).append(results[c])
 
+        if _verif.ACTIVE:
+            candidates = _verif.order("mro.candidates", candidates)
         candidates = [
             Candidate(
                 handler=c,
